@@ -189,6 +189,31 @@ nodes has fewer than `n` edges). -/
 def samplesBelow (T : Tables α) (mask : Array Bool) (pos : α) (u : Nat) : Nat :=
   (List.range mask.size).countP fun v => aget mask v && reaches (parentAt T pos) u mask.size v
 
+/-- consecutive break points strictly increase -/
+def strictSorted : List α → Bool
+  | [] => true
+  | [_] => true
+  | a :: b :: r => decide (a < b) && strictSorted (b :: r)
+
+/-- `x` occurs in `l` (equality through the order, so that it also runs at `Float`) -/
+def memB (x : α) (l : List α) : Bool := l.any fun b => !decide (b < x) && !decide (x < b)
+
+/-- `bs` is a list of break points of `[0, L]`: strictly increasing, starting at `0`, containing `L`
+and every edge end point (tskit's `ts.breakpoints()`). -/
+def partitionB (T : Tables α) (bs : List α) : Bool :=
+  strictSorted bs &&
+  (match bs with
+   | [] => false
+   | b :: _ => !decide (b < 0) && !decide (0 < b)) &&
+  memB T.seqLen bs &&
+  (List.range T.numEdges).all fun e => memB (T.l e) bs && memB (T.r e) bs
+
+/-- the table of specified span weights: for edge `e` and break point `b`, the number of `mask` nodes
+at or below the edge's child in the local tree at `b` if the edge covers `b`, else `0` -/
+def spanWeights (T : Tables α) (mask : Array Bool) (bs : List α) : List (List Nat) :=
+  (List.range T.numEdges).map fun e => bs.map fun b =>
+    if activeAt T b e then samplesBelow T mask b (T.chi e) else 0
+
 /-- every edge's parent is strictly older than its child (`times` = `nodes_time`): no cycles -/
 def timesOkB (T : Tables α) (times : Array α) : Bool :=
   (List.range T.numEdges).all fun e => decide (aget times (T.chi e) < aget times (T.par e))
